@@ -79,7 +79,9 @@ def contents(tier):
                                 if cell % 2:
                                     c["state_default"] = a + 1
                                     c["events_default"] = a + 1
-                                c["notifications"] = {"room": a + (-1, 0, 1)[cell % 3]}
+                                # (independent of the offset of the m.room.message entry: notifying and
+                                # sending are separate permissions)
+                                c["notifications"] = {"room": a + (-1, 0, 1)[(cell // 9) % 3]}
                             yield c, encoding
 
 
